@@ -219,7 +219,19 @@ def run_case(case):
                 sr0.compress_file(keep_original=False)
                 sr0.close()
                 b = b.with_suffix(".cbin")
-            label = f"{rec.kind} {'cbin' if use_c else 'bin'} ns={rec.ns} chunk={chunk} max_wf={max_wf} spikes={times.size} (spike#0 at {times[0]})"
+            # the recording is read the way the caller asks (reader_kwargs): sorted (default) or in on-disk channel order; an explicit header is the reader's own
+            rk = [None, {"sort": False}, {"sort": True}, {"sort": False}][int(rng.integers(0, 4))]
+            sort_flag = True if rk is None else rk["sort"]
+            give_h = bool(rng.integers(0, 2))
+            label = (f"{rec.kind} {'cbin' if use_c else 'bin'} ns={rec.ns} chunk={chunk} max_wf={max_wf} spikes={times.size} (spike#0 at {times[0]}) reader_kwargs={rk}"
+                     + (" h=given" if give_h else ""))
+            xkw = {} if rk is None else {"reader_kwargs": dict(rk)}
+            if give_h:
+                srh = spikeglx.Reader(b, sort=sort_flag)
+                xkw["h"] = {k: np.array(v) for k, v in srh.geometry.items()}
+                srh.close()
+            if not sort_flag:
+                res.count("unsorted_reader_extractions")
             WE.Parallel = Scheduler
             outs = []
             nchunks = len(np.arange(0, rec.ns, chunk))
@@ -231,7 +243,7 @@ def run_case(case):
                 before_meta = b.with_suffix(".meta").read_bytes()
                 try:
                     WE.extract_wfs_cbin(b, out, times, clus, chans, max_wf=max_wf, chunksize_samples=chunk, n_jobs=int(rng.integers(1, 9)), preprocess_steps=[],
-                                        seed=case["seed"], scratch_dir=(d / f"scr{oi}") if use_c else None)
+                                        seed=case["seed"], scratch_dir=(d / f"scr{oi}") if use_c else None, **xkw)
                 except Exception as e:
                     res.exception("extract:exception", e, f"{label} order {order}")
                     continue
@@ -250,7 +262,7 @@ def run_case(case):
                         res.check(np.all((smp >= s0) & (smp < s1)), "rowset:spike-outside-chunk", f"{label}: a task for chunk [{s0},{s1}) holds spikes at {smp[(smp < s0) | (smp >= s1)][:4]}")
                 outs.append(out)
             if outs:
-                sr = spikeglx.Reader(b)
+                sr = spikeglx.Reader(b, sort=sort_flag)
                 res.count("extractions")
                 table = judge_output(res, outs[0], sr, rec, times, clus, chans, max_wf, label)
                 try:
@@ -270,7 +282,7 @@ def run_case(case):
                 other = int(rng.choice([c for c in (500, 1000, 3000, 10000) if c != chunk]))
                 try:
                     WE.extract_wfs_cbin(b, out, times, clus, chans, max_wf=max_wf, chunksize_samples=other, n_jobs=1, preprocess_steps=[], seed=case["seed"],
-                                        scratch_dir=(d / "scrc") if use_c else None)
+                                        scratch_dir=(d / "scrc") if use_c else None, **xkw)
                     cur = file_bytes(out)
                     diff = [k for k in ref if ref[k] != cur[k]]
                     res.check(not diff, "chunk-size-dependence", f"{label}: chunk size {other} instead of {chunk} changes {diff}")
